@@ -15,7 +15,26 @@ LINE_OPS = ('rl', 'rL', 'rs', 'n', 'it', 'dr')
 ARG_OPS = ('r', 'rL', 'sk', 'sc', 'se')
 # other spellings of the same operation (same token in the model line, same reference call):
 #   tp = f.pos, gb = f.buf, lp = f.len (property, not len(f)), fn = f.fileno() (rolls over first), rm = f.read(-1)
-ALIAS = {'tp': 't', 'gb': 'g', 'lp': 'l', 'fn': 'ro', 'rm': 'ra'}
+ALIAS = {'tp': 't', 'gb': 'g', 'lp': 'l', 'fn': 'ro', 'rm': 'ra',
+         # round 5: every argument form the methods accept (the io reference is always called positionally)
+         #   ln = f.__len__(), nd = f.__next__(), rln = readline(None), rlk = readline(length=None),
+         #   rs0 = readlines(0), rsk = readlines(sizehint=0), rsm = readlines(-1), rsn = readlines(None),
+         #   rak = read(n=-1), rn = read(None) (SpooledBytesIO only), itr = list(iter(f)) / list(f.__iter__())
+         'ln': 'l', 'nd': 'n', 'rln': 'rl', 'rlk': 'rl', 'rs0': 'rs', 'rsk': 'rs', 'rsm': 'rs', 'rsn': 'rs',
+         'rak': 'ra', 'rn': 'ra', 'itr': 'it'}
+# spellings of the ops that carry a number: rk = read(n=k), sk0 = seek(p, 0), skk = seek(pos=p, mode=os.SEEK_SET),
+# sck = seek(pos=n, mode=os.SEEK_CUR), rLk = readline(length=n) (bytes)
+ARG_ALIAS = {'rk': 'r', 'sk0': 'sk', 'skk': 'sk', 'sck': 'sc', 'rLk': 'rL'}
+# round 5 - three kinds of op that the plain reference file does not have:
+#   ['x', what, ...]  a call that the class REJECTS (raises before storing anything): the io reference skips it (for
+#                     writelines with a bad piece: writes the pieces before it, as io.writelines does itself); position,
+#                     content and every later answer must be those of the history without the call
+#   ['o', op]         the op is applied to ANOTHER instance of the same class (other max_size; its failures are
+#                     swallowed, `['o', ['cl']]` closes it): the judged object must not notice
+#   ['q', name]       a harmless query / no-op of the file API (flush, isatty, seekable, ..., iter(f), f.__enter__(),
+#                     bool(f), f.closed): nothing may move
+SPECIAL = ('x', 'o', 'q')
+Q_NAMES = ('flush', 'isatty', 'seekable', 'readable', 'writable', 'closed', 'bool', 'iter', 'enter', 'softspace')
 WL_FORMS = ('list', 'gen', 'iter', 'tuple')
 # code points on the edges of the 1 / 2 / 3 / 4 byte classes of UTF-8 (and around the surrogate gap, BOM)
 UTF8_EDGES = ['\x7f', '\x80', '\u07ff', '\u0800', '\ud7ff', '\ue000', '\ufeff', '\uffff', '\U00010000', '\U0010ffff']
@@ -23,7 +42,62 @@ UTF8_EDGES = ['\x7f', '\x80', '\u07ff', '\u0800', '\ud7ff', '\ue000', '\ufeff', 
 
 def base(op):
     """the operation an op stands for (aliases resolved)"""
-    return ALIAS.get(op[0], op[0])
+    return ALIAS.get(op[0], ARG_ALIAS.get(op[0], op[0]))
+
+
+def bad_value(spec, text):
+    """an argument the class must refuse: ['sur', s] = a str holding a lone surrogate (not encodable as UTF-8), else a
+    value of the wrong type"""
+    if isinstance(spec, list):
+        return spec[1]
+    return {'other': b'zz' if text else 'zz', 'none': None, 'int': 5, 'bytearray': bytearray(b'q'), 'list': ['a'],
+            'float': 1.5, 'str': 'a'}[spec]
+
+
+def x_call(f, op, kind):
+    """make the call of an ['x', ...] op (expected to raise) on a spooled object"""
+    what = op[1]
+    text = kind == 'S'
+    if what == 'w':
+        return f.write(bad_value(op[2], text))
+    if what == 'wl':         # ['x', 'wl', pieces before, bad piece]: the pieces before it ARE written (io does the same)
+        return f.writelines(wl_pieces(['wl', op[2]], kind) + [bad_value(op[3], text), 'no' if text else b'no'])
+    if what == 'wln':
+        return f.writelines(bad_value(op[2], text))      # not an iterable (None, 5)
+    if what == 'sw':
+        return f.seek(op[2], 7)                         # no such whence (3 / 4 are SEEK_DATA / SEEK_HOLE on Linux)
+    if what == 'sn':
+        return f.seek(-1)                               # SpooledBytesIO only (BytesIO and BufferedRandom both refuse)
+    if what == 'sb':
+        return f.seek(bad_value(op[2], text))
+    if what == 'tr':
+        return f.truncate(-1)
+    if what == 'rb':
+        return f.read(bad_value(op[2], text))
+    if what == 'rlb':
+        return f.readline('a')
+    raise ValueError('unknown rejected call %r' % (op,))
+
+
+def x_ref_ops(op, kind):
+    """the plain ops the reference performs in place of a rejected call"""
+    if op[1] == 'wl' and op[2]:
+        return [['wl', op[2]]]
+    return []
+
+
+def q_call(f, name):
+    if name == 'closed':
+        return f.closed
+    if name == 'bool':
+        return bool(f)
+    if name == 'iter':
+        return iter(f)
+    if name == 'enter':
+        return f.__enter__()
+    if name == 'softspace':
+        return getattr(f, 'softspace', None)
+    return getattr(f, name)()
 
 
 def wl_pieces(op, kind):
@@ -36,6 +110,8 @@ def written(op, kind):
         return bytes.fromhex(op[1]) if kind == 'B' else op[1]
     if op[0] == 'wl':
         return (b'' if kind == 'B' else '').join(wl_pieces(op, kind))
+    if op[0] == 'x' and op[1] == 'wl':       # writelines with a bad piece: the pieces before it are written
+        return (b'' if kind == 'B' else '').join(wl_pieces(['wl', op[2]], kind))
     return None
 
 
@@ -94,6 +170,45 @@ def apply_op(f, op, kind, is_ref):
         return None
     if name == 'rm':
         return f.read(-1)
+    if name in ALIAS and name not in ('tp', 'gb', 'lp', 'fn') and is_ref:
+        return apply_op(f, [ALIAS[name]] + list(op[1:]), kind, True)
+    if name in ARG_ALIAS and is_ref:
+        return apply_op(f, [ARG_ALIAS[name]] + list(op[1:]), kind, True)
+    if name == 'ln':
+        return f.__len__()
+    if name == 'nd':
+        try:
+            return f.__next__()
+        except StopIteration:
+            return StopIteration
+    if name == 'rln':
+        return f.readline(None)
+    if name == 'rlk':
+        return f.readline(length=None)
+    if name == 'rs0':
+        return f.readlines(0)
+    if name == 'rsk':
+        return f.readlines(sizehint=0)
+    if name == 'rsm':
+        return f.readlines(-1)
+    if name == 'rsn':
+        return f.readlines(None)
+    if name == 'rak':
+        return f.read(n=-1)
+    if name == 'rn':
+        return f.read(None)
+    if name == 'itr':
+        return list(iter(f)) if len(op) < 2 else list(f.__iter__())
+    if name == 'rk':
+        return f.read(n=op[1])
+    if name == 'sk0':
+        return f.seek(op[1], 0)
+    if name == 'skk':
+        return f.seek(pos=op[1], mode=os.SEEK_SET)
+    if name == 'sck':
+        return f.seek(pos=op[1], mode=os.SEEK_CUR)
+    if name == 'rLk':
+        return f.readline(length=op[1])
     if name == 'tp':
         return f.tell() if is_ref else f.pos
     if name == 'gb':
@@ -167,8 +282,20 @@ def apply_raw(f, op, ft):
     return apply_op(f, op, 'B' if ft == 'b' else 'S', True)
 
 
+def ref_special(ref, op, kind):
+    """a round-5 special op on the reference object: the record it must produce, or None when it has none ('o')"""
+    if op[0] == 'o':
+        return None
+    if op[0] == 'x':
+        for sub in x_ref_ops(op, kind):
+            apply_op(ref, sub, kind, True)
+        return [['N'], ref.tell()]
+    return [['Q'], ref.tell()]          # 'q'
+
+
 def reference(case):
-    """run the history on io.BytesIO / io.StringIO(newline=''); returns (in_domain, appending, records)"""
+    """run the history on io.BytesIO / io.StringIO(newline=''); returns (in_domain, appending, records); the record of
+    an ['o', ...] op (another instance) is None"""
     kind = case['k']
     text = kind == 'S'
     ref = io.StringIO(newline='') if text else io.BytesIO()
@@ -176,9 +303,9 @@ def reference(case):
     in_domain = True
     appending = True
     for op in case['ops']:
-        name = op[0]
+        name = base(op)
         n = len(ref.getvalue())
-        if name in ('w', 'wl') and ref.tell() != n:
+        if (name in ('w', 'wl') or (name == 'x' and x_ref_ops(op, kind))) and ref.tell() != n:
             appending = False
             in_domain = False              # the statement is about appending writes
         if name == 'sk' and op[1] > n:
@@ -189,8 +316,13 @@ def reference(case):
             in_domain = False
         if name == 'rL' and (text or op[1] < 1):
             in_domain = False
+        if op[0] == 'rn' and text:
+            in_domain = False              # SpooledStringIO.read(None) raises TypeError (recorded, outside the statement)
         if not in_domain:
             break
+        if op[0] in SPECIAL:
+            recs.append(ref_special(ref, op, kind))
+            continue
         v = apply_op(ref, op, kind, True)
         if name in ('w', 'wl', 'ro', 'fn'):
             v = None
@@ -211,8 +343,11 @@ def default_reference(case):
     for op in case['ops']:
         if base(op) in ('rl', 'rL', 'rs', 'n', 'it', 'dr') and not no_lone_cr(ref.getvalue()[ref.tell():]):
             return None
+        if op[0] in SPECIAL:
+            recs.append(ref_special(ref, op, 'S'))
+            continue
         v = apply_op(ref, op, 'S', True)
-        if op[0] in ('w', 'wl', 'ro', 'fn'):
+        if base(op) in ('w', 'wl', 'ro', 'fn'):
             v = None
         recs.append([['STOP'] if v is StopIteration else canon(v, True), ref.tell()])
     return recs
@@ -223,19 +358,39 @@ def mfr_text(case):
     return bool(case['text']) or not case['files']
 
 
-def mfr_expected(case):
-    """plain restatement: one string, one cursor"""
+def mfr_at(case):
+    """how many units of each member were already consumed when it was handed to MultiFileReader (round 5)"""
+    at = case.get('at') or [0] * len(case['files'])
+    text = mfr_text(case)
+    return [min(a, len(p if text else bytes.fromhex(p))) for a, p in zip(at, case['files'])]
+
+
+M_READ_ALIAS = {'rk': 'r', 'rn': 'ra'}      # read(amt=n), read(None)
+M_SEEK_OPS = ('s', 'sw', 'skk')            # seek(0), seek(0, os.SEEK_SET), seek(offset=0, whence=os.SEEK_SET)
+
+
+def mfr_expected(case, from_start=False):
+    """plain restatement: one string, one cursor.  Members handed over at a position other than 0 (just written; a
+    header already read): the first pass delivers what each member still had to deliver, in order (the code's reading,
+    and the model's; `from_start`: the other reading the statement allows - a reader that rewinds its members when it is
+    built delivers the whole contents at once); seek(0) rewinds every member, so after it the reader delivers the whole
+    contents under either reading"""
     text = mfr_text(case)
     parts = case['files'] if text else [bytes.fromhex(p) for p in case['files']]
-    whole = ('' if text else b'').join(parts)
+    whole = ('' if text else b'').join(p[0 if from_start else a:] for p, a in zip(parts, mfr_at(case)))
     pos = 0
     out = []
     for op in case['ops']:
-        if op[0] == 's':
+        if op[0] in M_SEEK_OPS:
+            whole = ('' if text else b'').join(parts)
             pos = 0
             out.append(['N'])
             continue
-        if op[0] == 'ra' or op[1] == 0:
+        if op[0] == 'x':                    # a rejected call (seek(1), seek(0, SEEK_CUR), read('a')): nothing moves
+            out.append(['N'])
+            continue
+        name = M_READ_ALIAS.get(op[0], op[0])
+        if name == 'ra' or op[1] == 0:
             chunk = whole[pos:]
         else:
             chunk = whole[pos:pos + op[1]]
@@ -323,7 +478,22 @@ class C18(Property):
             'for bytesSem / textSem / lfSem) against the real io.BytesIO AND tempfile.TemporaryFile / io.StringIO(newline="") / '
             'the default io.StringIO(): every op sequence of length 2 (3 after a write) over a 15-17 op alphabet plus random '
             'histories, overwriting writes and (bytes) seeks, writes and reads past the end included; non-trivial = a '
-            'write or read after a seek. distinct = distinct canonical cases.')
+            'write or read after a seek. Round 5, generated FIRST: "rejected" = a call the class refuses (write of bytes / str '
+            'to the other class, of None, 5, a bytearray, a list; (S) of a str holding a lone surrogate; writelines with such a '
+            'piece in the MIDDLE of the batch or of a non-iterable; seek(n, 7); truncate(-1); (B) seek(-1); read("a"), '
+            'read(1.5), readline("a"), seek("a"), seek(None)) once or twice, as the first call on a fresh object or after '
+            'nothing / seek(0) / a read / a readline, followed by a probe, an appending write, a read, getvalue, tell - the io '
+            'reference skips the call (writelines: writes the pieces before the refused one); MultiFileReader over members '
+            'handed over AWAY from offset 0 (just written: at the end; a header consumed: at 1; mixed) for every partition x '
+            'read / seek(0) mixes, its rejected calls (seek(1), seek(0, SEEK_CUR), read("a")) between reads and every argument '
+            'form (read(amt=n), read(None), seek(0, os.SEEK_SET), seek(offset=0, whence=0)); "spelling" = every argument form of '
+            'the spooled methods (read(n=k), seek(p, 0), seek(pos=, mode=), readline(None / length=), readlines(0 / -1 / None / '
+            'sizehint=0), f.__len__(), f.__next__(), iter(f), the four constructor forms) and the harmless queries '
+            '(flush, isatty, seekable, readable, writable, closed, bool, iter, __enter__, softspace); "sibling" = writes, '
+            'reads, rollover, rejected calls, close() and calls after close() on ANOTHER live instance between the steps of the '
+            'judged one; every list returned (readlines, list(f), loop) is spoiled by the caller; 30 % of the random '
+            'histories carry such calls; max_size also exactly the number of bytes written. '
+            'distinct = distinct canonical cases.')
     ASSUMPTIONS = ['io.BytesIO and tempfile.TemporaryFile are the same abstract file (content + position) for the listed calls '
                    '(round 3: tested directly on every run, kind F: same history on both objects and on the Lean reference file)',
                    'text is a sequence of Unicode scalar values (no lone surrogates); UTF-8 is modelled as a prefix code with '
@@ -337,6 +507,18 @@ class C18(Property):
                    'f.pos, f.buf, f.len, read(-1) are spellings of tell(), getvalue(), len(f), read(): same model operation, '
                    'same io reference call; writelines(iterable) is judged against io.writelines of the same pieces and '
                    'modelled as the loop of writes it is (Lean: = one write of the joined pieces)',
+                   'round 5: a call that RAISES (wrong-type or unencodable argument of write / writelines, a whence that does not '
+                   'exist, negative truncate / seek, wrong-type size or position) must leave content and position alone: the '
+                   'reference is the io object that SKIPPED the call (writelines with a refused piece: that wrote the pieces '
+                   'before it, as io.writelines itself does); which exception is raised is not compared; if the implementation '
+                   'ACCEPTS a call generated as rejected (e.g. a bytearray) the history leaves the judged domain at that call',
+                   'round 5: MultiFileReader over members handed over at another position than 0: the first pass delivers the '
+                   'members\' UNREAD parts in order, seek(0) rewinds every member and from then on the whole contents are '
+                   'delivered (Lean: mfr_offset_first_pass, mfr_offset_seek0_restarts)',
+                   'round 5: another live instance of the class and the harmless queries of the file API (flush, isatty, '
+                   'seekable, readable, writable, closed, bool(f), iter(f), f.__enter__(), softspace) are no events '
+                   'of the reference or the model: nothing may move; keyword / dunder / explicit-default spellings are the same '
+                   'model operation as the plain call',
                    'readlines(sizehint > 0) and readline(0) are outside the statement (CPython\'s BytesIO and BufferedRandom '
                    'differ on the hint themselves); positions beyond the data are outside the statement']
     EXTRA_TRUSTED = ['CPython 3.12 codecs.StreamReader.read/readline/seek/reset and StreamRecoder wrappers, transliterated by '
@@ -413,6 +595,14 @@ class C18(Property):
 
     # ------------------------------------------------------------------ small families (round 2)
     def small_families(self, rng):
+        for c in self.rejected_family():        # round 5
+            yield c
+        for c in self.mfr_offset_family():
+            yield c
+        for c in self.spelling_family():
+            yield c
+        for c in self.sibling_family():
+            yield c
         for c in self.exotic_family():
             yield c
         for c in self.utf8_family():
@@ -425,6 +615,81 @@ class C18(Property):
             yield c
         for c in self.file_family(rng, 2000 if self.thorough else 300):
             yield c
+
+    # ------------------------------------------------------------------ round 5 families
+    @staticmethod
+    def x_ops(kind):
+        """every call the class rejects: wrong-type and (text) unencodable arguments of write / writelines (also in the
+        MIDDLE of a batch), no such whence, negative truncate, negative seek (bytes), wrong-type size / position"""
+        text = kind == 'S'
+        ok = ['ok', '\xe9'] if text else ['6f6b', 'c3a9']
+        xs = [['x', 'w', 'other'], ['x', 'w', 'none'], ['x', 'w', 'int'], ['x', 'w', 'bytearray'], ['x', 'w', 'list'],
+              ['x', 'wl', [], 'other'], ['x', 'wl', ok, 'int'], ['x', 'wl', ok[:1], 'none'], ['x', 'wln', 'none'],
+              ['x', 'wln', 'int'], ['x', 'sw', 0], ['x', 'sw', 1], ['x', 'tr'], ['x', 'rb', 'str'], ['x', 'rb', 'float'],
+              ['x', 'rlb'], ['x', 'sb', 'str'], ['x', 'sb', 'none']]
+        if text:
+            xs = [['x', 'w', ['sur', 'bad\ud800']], ['x', 'w', ['sur', '\udc00']], ['x', 'w', ['sur', '\xe9\udfff\U0001f600']],
+                  ['x', 'wl', ok, ['sur', 'b\udbff']], ['x', 'wl', [], ['sur', '\ud800\udc00x']]] + xs
+        else:
+            xs = [['x', 'sn']] + xs
+        return xs
+
+    def rejected_family(self):
+        """a call that RAISES stores nothing and moves nothing: content, position and every later answer are those of the
+        history without it (prefix x rejected call (once / twice) x probe, then an appending write, a read and the final
+        getvalue / tell; also as the very first call on a fresh object)"""
+        for kind, c1, c2 in (('B', b'h\xc3\xa9llo\nw', b'\xc3\xb6r\n'), ('S', 'h\xe9llo\nw', ' w\xf6rld\n')):
+            enc = (lambda b: b.hex()) if kind == 'B' else (lambda t: t)
+            probes = [['t'], ['ra'], ['rl'], ['l'], ['sc', 0], ['n']]
+            j = 0
+            for pre in ([], [['sk', 0]], [['sk', 0], ['r', 2]], [['sk', 0], ['rl']], None):
+                for x in self.x_ops(kind):
+                    for reps in (1, 2):
+                        j += 1
+                        probe = probes[j % len(probes)]
+                        if pre is None:       # the rejected call comes first (fresh object, buffer not created yet)
+                            ops = [x] * reps + [['t'], ['w', enc(c1)], probe, ['g'], ['t']]
+                        else:
+                            ops = ([['w', enc(c1)]] + pre + [x] * reps + [probe] +
+                                   [['se', 0], ['w', enc(c2)], ['t'], ['sk', 1], ['ra'], ['g'], ['t']])
+                        for c in self.variants({'k': kind, 'ops': [list(o) for o in ops]},
+                                               mid=len(c1 if kind == 'B' else c1.encode('utf-8')) + 2):
+                            yield c
+
+    def spelling_family(self):
+        """every argument form the methods accept (keywords, explicit defaults, dunder / alias names, the constructor
+        forms) and the harmless queries of the file API, each after a seek into the data and followed by a read"""
+        for kind, c in (('B', b'a\xc3\xa9\nbc\r\nd'), ('S', 'a\xe9\nb\u65e5\r\nc')):
+            enc = (lambda b: b.hex()) if kind == 'B' else (lambda t: t)
+            alpha = [['ln'], ['nd'], ['rln'], ['rlk'], ['rs0'], ['rsk'], ['rsm'], ['rsn'], ['rak'], ['itr'],
+                     ['itr', 1], ['rk', 2], ['sk0', 3], ['skk', 1], ['sck', 1]] + [['q', q] for q in Q_NAMES]
+            if kind == 'B':
+                alpha += [['rn'], ['rLk', 2]]
+            j = 0
+            for pos in (0, 1, 3):
+                for a in alpha:
+                    for tail in (['ra'], ['rl'], ['n']):
+                        j += 1
+                        ops = [['w', enc(c)], ['sk', pos], a, tail, ['se', 0], ['w', enc(c[:2])], a, ['g'], ['t']]
+                        for cse in self.variants({'k': kind, 'ctor': j % 4, 'ops': [list(o) for o in ops]},
+                                                 mid=len(c if kind == 'B' else c.encode('utf-8')) + 1):
+                            yield cse
+
+    def sibling_family(self):
+        """two live objects of the class: writes, reads, rollovers, REJECTED calls and close() on the other instance
+        (and calls on it after it was closed) between the steps of the judged one"""
+        for kind, c, d in (('B', b'ab\ncd', b'XYZ\n'), ('S', 'a\xe9\ncd', '\U0001f600Y\n')):
+            enc = (lambda b: b.hex()) if kind == 'B' else (lambda t: t)
+            others = [[['o', ['w', enc(d)]]], [['o', ['w', enc(d)]], ['o', ['sk', 0]], ['o', ['r', 1]]],
+                      [['o', ['w', enc(d)]], ['o', ['ro']]], [['o', ['w', enc(d)]], ['o', ['l']], ['o', ['g']]],
+                      [['o', x] for x in self.x_ops(kind)[:3]],
+                      [['o', ['w', enc(d)]], ['o', ['cl']], ['o', ['ra']], ['o', ['w', enc(d)]], ['o', ['t']]],
+                      [['o', ['cl']], ['o', ['l']], ['o', ['ro']]]]
+            for ot in others:
+                for mine in ([['sk', 1], ['r', 2]], [['sk', 0], ['rl']], [['l']], [['se', 0], ['w', enc(c)]], [['n']]):
+                    ops = [['w', enc(c)]] + ot[:1] + mine[:1] + ot[1:] + mine[1:] + [['t'], ['ra'], ['g'], ['t']]
+                    for cse in self.variants({'k': kind, 'ops': [list(o) for o in ops]}):
+                        yield cse
 
     @staticmethod
     def alpha_x(kind, n):
@@ -519,6 +784,34 @@ class C18(Property):
                     for mk in (('io', 'spooled') if len(files) == 2 else ('io',)):
                         yield {'k': 'M', 'text': text, 'mk': mk, 'files': list(files), 'ops': [list(a), ['s'], list(c)]}
 
+    def mfr_offset_family(self):
+        """member files handed to MultiFileReader AWAY from offset 0 - just written (position at the end), a header
+        already read (position 1), a mix - for every partition; first pass = what the members still had to deliver,
+        after seek(0) = the whole contents; mixes of sized / unsized reads around the seek(0); rejected calls
+        (seek(1), seek(0, SEEK_CUR), read('a')) and every argument form in between"""
+        seqs = [[['s'], ['ra']], [['s'], ['r', 3], ['ra']], [['r', 1], ['s'], ['ra']], [['ra'], ['s'], ['r', 2], ['ra']],
+                [['r', 2], ['ra']], [['ra'], ['r', 1]], [['r', 9], ['s'], ['r', 9]], [['s'], ['r', 2], ['s'], ['ra']],
+                [['s'], ['r', 0], ['s'], ['r', 1], ['r', 9]],
+                [['x', 's1'], ['sw'], ['rk', 2], ['x', 'sc'], ['rn']], [['rk', 1], ['x', 'rb'], ['skk'], ['x', 's1'], ['r', 9]],
+                # a rejected call BETWEEN reads (nothing may be rewound, skipped or re-read)
+                [['r', 1], ['x', 's1'], ['r', 9]], [['x', 's1'], ['ra']], [['r', 3], ['x', 's1'], ['x', 'sc'], ['ra']],
+                [['ra'], ['x', 's1'], ['ra']], [['r', 2], ['x', 'rb'], ['x', 'sc'], ['r', 2], ['ra']]]
+        j = 0
+        for text, files in self.mfr_partitions():
+            n = len(files)
+            lens = [len(p) if text else len(p) // 2 for p in files]
+            ats = [lens, [min(1, ln) for ln in lens], [0] + lens[1:], lens[:-1] + [0], [0] * n]
+            for at in ats:
+                for seq in seqs:
+                    if not any(at) and not any(o[0] in ('x', 'sw', 'skk', 'rk', 'rn') for o in seq):
+                        continue        # members at 0 and plain ops: mfr_seek_family / mfr_exhaustive
+                    j += 1
+                    mk = ('written', 'io', 'spooled', 'written', 'tmp')[j % 5]
+                    if mk == 'tmp' and text:
+                        mk = 'written'
+                    yield {'k': 'M', 'text': text, 'mk': mk, 'files': list(files), 'at': list(at),
+                           'ops': [list(o) for o in seq]}
+
     def file_family(self, rng, n_random):
         """'F' cases: the plain reference file by itself - Lean `Spec.run` (what every refinement theorem has on its
         right-hand side) against the real io.BytesIO AND tempfile.TemporaryFile (b), io.StringIO(newline='') (t), the
@@ -592,13 +885,15 @@ class C18(Property):
     @staticmethod
     def data_len(case):
         if case['k'] == 'B':
-            return sum(len(written(op, 'B')) for op in case['ops'] if op[0] in ('w', 'wl'))
-        return sum(len(written(op, 'S').encode('utf-8')) for op in case['ops'] if op[0] in ('w', 'wl'))
+            return sum(len(written(op, 'B') or b'') for op in case['ops'])
+        return sum(len((written(op, 'S') or '').encode('utf-8')) for op in case['ops'])
 
     def with_sizes(self, rng, case, chunks=None):
         """the same history for max_size 1, a mid value, larger than the data (and chunk sizes for S)"""
         n = self.data_len(case)
         sizes = [1, max(2, n // 2 + rng.randint(0, 1)), n + 1 + rng.randint(0, 3)]
+        if rng.random() < 0.3:
+            sizes[1] = max(2, n)          # the LAST byte written reaches max_size exactly (`>=`): rolls over there
         for ms in sizes:
             if case['k'] == 'S':
                 for ch in (chunks or [rng.choice([1, 2, 3, 5, 7]), None]):
@@ -638,6 +933,8 @@ class C18(Property):
         nops = rng.randint(1, 10)
 
         liney = rng.random() < 0.35
+        spice = rng.random() < 0.3        # round 5: rejected calls, another instance, queries, other spellings
+        xs = self.x_ops(kind)
 
         def payload():
             if liney:       # many short lines: the codec reader caches the lines of one chunk
@@ -680,10 +977,34 @@ class C18(Property):
                 op = ['se', 0 if text or rng.random() < 0.4 else rng.randint(0, n)]
             else:
                 op = [o]
+            # round 5: another spelling of the same call
+            if spice and rng.random() < 0.25:
+                alt = {'r': ['rk'], 'sk': ['sk0', 'skk'], 'sc': ['sck'], 'rL': ['rLk'], 'l': ['ln'], 'n': ['nd'],
+                       'rl': ['rln', 'rlk'], 'rs': ['rs0', 'rsk', 'rsm', 'rsn'], 'ra': ['rak'] + ([] if text else ['rn']),
+                       'it': ['itr']}.get(op[0])
+                if alt:
+                    op = [rng.choice(alt)] + op[1:]
             ops.append(op)
             apply_op(ref, op, kind, True)
+            # round 5: a rejected call / an op on another instance / a harmless query in between
+            if spice and rng.random() < 0.3:
+                r = rng.random()
+                if r < 0.5:
+                    sp = rng.choice(xs)
+                    if written(sp, kind) and ref.tell() != len(ref.getvalue()):
+                        sp = ['x', 'w', 'none']
+                elif r < 0.8:
+                    sp = ['o', rng.choice([['w', op[1]] if op[0] == 'w' else ['ra'], ['sk', 0], ['ro'], ['l'], ['cl'], ['rl'],
+                                           rng.choice(xs)])]
+                else:
+                    sp = ['q', rng.choice(Q_NAMES)]
+                for _ in range(rng.choice([1, 1, 2])):
+                    ops.append(list(sp))
+                    ref_special(ref, sp, kind)
         ops += [['g'], ['t']]
         case = {'k': kind, 'ops': ops}
+        if spice:
+            case['ctor'] = rng.randint(0, 3)
         if overwrite:
             case['ow'] = 1  # (not generated any more)
         return case
@@ -778,18 +1099,40 @@ class C18(Property):
                 ops.append(['r', 0])
             else:
                 ops.append(['s'])
-        mk = rng.choice(['io', 'io', 'spooled', 'tmp'])
+        mk = rng.choice(['io', 'io', 'spooled', 'tmp', 'written'])
         if mk == 'tmp' and text:
             mk = 'spooled'
-        return {'k': 'M', 'text': text, 'mk': mk, 'files': parts, 'ops': ops}
+        case = {'k': 'M', 'text': text, 'mk': mk, 'files': parts, 'ops': ops}
+        if parts and rng.random() < 0.4:    # members handed over at other positions than 0
+            case['at'] = [rng.choice([0, 1, 2, 99, 99]) for _ in parts]
+            case['at'] = mfr_at(case)
+        if rng.random() < 0.3:              # rejected calls / other argument forms in between
+            for _ in range(rng.randint(1, 3)):
+                ops.insert(rng.randint(0, len(ops)), rng.choice([['x', 's1'], ['x', 'sc'], ['x', 'rb'], ['sw'], ['skk'],
+                                                                 ['rk', rng.choice([1, 2, 5])], ['rn']]))
+        return case
 
     # ------------------------------------------------------------------ model line
+    def has_x(self, case):
+        return any(op[0] == 'x' or (op[0] == 'o' and op[1][0] == 'x') for op in case['ops'])
+
     def line(self, case):
+        if case['k'] != 'F' and self.has_x(case):
+            k = self.key(case)
+            if k not in getattr(self, '_ran_x', ()):
+                self.impl(case)     # (the runner's shrinker asks for the line first) did the implementation accept it?
+            if k in getattr(self, '_accepted', ()):
+                return None         # a call generated as rejected was ACCEPTED: outside the model's domain
         if case['k'] == 'M':
             files = [hx(p.encode('utf-8')) for p in case['files']] if case['text'] else [p or '-' for p in case['files']]
             toks = ['M', 't' if mfr_text(case) else 'b', str(len(files))] + files
+            if any(mfr_at(case)):           # `MO`: members at their own positions
+                toks = ['MO'] + toks[1:] + [str(a) for a in mfr_at(case)]
             for op in case['ops']:
-                toks.append('s' if op[0] == 's' else 'ra' if op[0] == 'ra' else 'r%d' % op[1])
+                if op[0] == 'x':
+                    continue                # a rejected call is no event of the MultiFileReader model
+                name = M_READ_ALIAS.get(op[0], op[0])
+                toks.append('s' if name in M_SEEK_OPS else 'ra' if name == 'ra' else 'r%d' % op[1])
             return ' '.join(toks)
         if case['k'] == 'F':
             text = case['ft'] != 'b'
@@ -806,16 +1149,41 @@ class C18(Property):
                 toks.append('w' + (hx(op[1].encode('utf-8')) if text else (op[1] or '-')))
             elif op[0] == 'wl':
                 toks.append('W' + ','.join(hx(p.encode('utf-8')) if text else (p or '-') for p in op[1]))
-            elif op[0] in ARG_OPS:
-                toks.append('%s%d' % (op[0], op[1]))
+            elif op[0] in ('o', 'q'):
+                continue        # another instance / a no-op query: not an event of the model
+            elif op[0] == 'x':
+                toks.append(self.x_token(op, text))
+            elif op[0] in ARG_OPS or op[0] in ARG_ALIAS:
+                toks.append('%s%d' % (base(op), op[1]))
             else:
                 toks.append(base(op))
         return ' '.join(toks)
+
+    @staticmethod
+    def x_token(op, text):
+        """model token of a rejected call.  `x` = rejected (state unchanged); `xw<hex>` = a write whose payload the MODEL's
+        own UTF-8 decoder must refuse (a lone surrogate, sent as its three 'surrogatepass' bytes); `xW<hex>,..,zz,..` =
+        writelines: the model writes the pieces before the first one it cannot decode (`zz` = not a payload at all)"""
+        def tok(piece):
+            return hx(piece.encode('utf-8')) if text else (piece or '-')
+
+        def bad(spec):
+            return hx(spec[1].encode('utf-8', 'surrogatepass')) if isinstance(spec, list) else 'zz'
+        if op[1] == 'w' and isinstance(op[2], list):
+            return 'xw' + bad(op[2])
+        if op[1] == 'wl':
+            return 'xW' + ','.join([tok(p) for p in op[2]] + [bad(op[3]), tok('no' if text else b'no'.hex())])
+        return 'x'
 
     # ------------------------------------------------------------------ implementation
     def impl(self, case):
         import boltons.ioutils as iu
         self.stats[case['k']] = self.stats.get(case['k'], 0) + 1
+        if case['k'] != 'F' and self.has_x(case):
+            if not hasattr(self, '_ran_x'):
+                self._ran_x = set()
+                self._accepted = set()
+            self._ran_x.add(self.key(case))
         if case['k'] == 'M':
             return self.impl_mfr(case, iu)
         if case['k'] == 'F':
@@ -825,18 +1193,60 @@ class C18(Property):
         out = []
         saved = iu.READ_CHUNK_SIZE
         f = None
+        other = None
         try:
             with time_limit(self.case_limit()):
                 if text and case.get('chunk') is not None:
                     iu.READ_CHUNK_SIZE = case['chunk']
-                f = (iu.SpooledStringIO if text else iu.SpooledBytesIO)(max_size=case['ms'])
+                cls = iu.SpooledStringIO if text else iu.SpooledBytesIO
+                ctor = case.get('ctor', 0)      # every form of the constructor
+                f = (cls(max_size=case['ms']) if ctor == 0 else cls(case['ms']) if ctor == 1 else
+                     cls(case['ms'], None) if ctor == 2 else cls(max_size=case['ms'], dir=None))
                 for op in case['ops']:
+                    self.stats['op:' + op[0]] = self.stats.get('op:' + op[0], 0) + 1
+                    if op[0] == 'o':            # the op goes to ANOTHER instance; whatever happens there stays there
+                        if other is None:
+                            other = cls(max_size=1000 if case['ms'] == 1 else 1)
+                        try:
+                            if op[1][0] == 'cl':
+                                other.close()
+                            elif op[1][0] == 'x':
+                                x_call(other, op[1], kind)
+                            else:
+                                apply_op(other, op[1], kind, False)
+                        except Exception:
+                            pass
+                        out.append({'skip': 1})
+                        continue
+                    if op[0] == 'q':
+                        q_call(f, op[1])
+                        out.append({'r': ['Q'], 't': f.tell(), 'skip': 1})
+                        continue
+                    if op[0] == 'x':
+                        try:
+                            x_call(f, op, kind)
+                        except CaseTimeout:
+                            raise
+                        except Exception as e:
+                            self.stats['rejected:' + exc_name(e)] = self.stats.get('rejected:' + exc_name(e), 0) + 1
+                            out.append({'r': ['N'], 't': f.tell(), 'rej': exc_name(e)})
+                            continue
+                        # the call was accepted: the case leaves the domain here (not judged, not sent to the model)
+                        out.append({'acc': 1})
+                        self._accepted.add(self.key(case))
+                        self.stats['x_accepted'] = self.stats.get('x_accepted', 0) + 1
+                        break
                     v = apply_op(f, op, kind, False)
-                    if op[0] in ('w', 'wl', 'ro', 'fn'):
+                    if isinstance(v, list):
+                        shown = canon(v, text)
+                        v.append(v[0] if v else None)      # the caller spoils the list it was handed
+                        v.reverse()
+                        out.append({'r': shown, 't': f.tell()})
+                        continue
+                    if base(op) in ('w', 'wl', 'ro', 'fn'):
                         v = None        # what write() / writelines() / rollover() / fileno() return is not part of the statement
                     rec = ['STOP'] if v is StopIteration else canon(v, text)
                     out.append({'r': rec, 't': f.tell()})
-                    self.stats['op:' + op[0]] = self.stats.get('op:' + op[0], 0) + 1
                 if f._rolled:
                     self.stats['rolled'] = self.stats.get('rolled', 0) + 1
         except CaseTimeout:
@@ -848,11 +1258,12 @@ class C18(Property):
             self.stats['exc:' + exc_name(e)] = self.stats.get('exc:' + exc_name(e), 0) + 1
         finally:
             iu.READ_CHUNK_SIZE = saved
-            try:
-                if f is not None:
-                    f.close()
-            except Exception:
-                pass
+            for obj in (f, other):
+                try:
+                    if obj is not None:
+                        obj.close()
+                except Exception:
+                    pass
         return out
 
     def impl_file(self, case):
@@ -897,30 +1308,61 @@ class C18(Property):
         members = []
         try:
             with time_limit(self.case_limit()):
-                for p in case['files']:
+                for p, at in zip(case['files'], mfr_at(case)):
                     data = p if text else bytes.fromhex(p)
                     if case['mk'] == 'spooled':
                         m = (iu.SpooledStringIO if text else iu.SpooledBytesIO)(max_size=3)
                         m.write(data)
-                        m.seek(0)
                     elif case['mk'] == 'tmp':
                         m = tempfile.TemporaryFile()
                         m.write(data)
-                        m.seek(0)
+                    elif case['mk'] == 'written':       # built the way a producer does: by writing to it
+                        m = io.StringIO(newline='') if text else io.BytesIO()
+                        m.write(data)
                     else:
                         m = io.StringIO(data, newline='') if text else io.BytesIO(data)
+                    if case['mk'] != 'io' and at != len(data):
+                        m.seek(0)
+                    if at and (case['mk'] == 'io' or at != len(data)):
+                        m.read(at)                       # a header already consumed
                     members.append(m)
                 mfr = iu.MultiFileReader(*members)
                 for op in case['ops']:
+                    self.stats['mop:' + op[0]] = self.stats.get('mop:' + op[0], 0) + 1
+                    if op[0] == 'x':
+                        try:
+                            if op[1] == 's1':
+                                mfr.seek(1)
+                            elif op[1] == 'sc':
+                                mfr.seek(0, os.SEEK_CUR)
+                            else:
+                                mfr.read('a')
+                        except CaseTimeout:
+                            raise
+                        except Exception:
+                            out.append({'r': ['N'], 'skip': 1})
+                            continue
+                        out.append({'acc': 1})
+                        self._accepted.add(self.key(case))
+                        break
                     if op[0] == 's':
                         mfr.seek(0)
                         v = None
+                    elif op[0] == 'sw':
+                        mfr.seek(0, os.SEEK_SET)
+                        v = None
+                    elif op[0] == 'skk':
+                        mfr.seek(offset=0, whence=os.SEEK_SET)
+                        v = None
                     elif op[0] == 'ra':
                         v = mfr.read()
+                    elif op[0] == 'rn':
+                        v = mfr.read(None)
+                    elif op[0] == 'rk':
+                        v = mfr.read(amt=op[1])
                     else:
                         v = mfr.read(op[1])
                     out.append({'r': canon(v, mfr_text(case))})
-                    self.stats['mop:' + op[0]] = self.stats.get('mop:' + op[0], 0) + 1
         except CaseTimeout:
             out.append({'exc': 'CaseTimeout'})
         except Exception as e:
@@ -939,6 +1381,8 @@ class C18(Property):
         if case['k'] == 'F':
             obs = obs[0]
         for o in obs:
+            if 'skip' in o or 'acc' in o:
+                continue
             if 'exc' in o:
                 recs.append('X' + o['exc'])
             elif case['k'] == 'M':
@@ -964,10 +1408,20 @@ class C18(Property):
             if i >= len(obs):
                 return self.fail('missing', 'no observation for op %d %r' % (i, op), i, op, None, exp[i][0])
             o = obs[i]
+            if 'acc' in o:
+                return None    # a call generated as "rejected" was accepted: the history leaves the judged domain here
+            if exp[i] is None:
+                continue       # ['o', ...]: the op went to another instance
             if 'exc' in o:
                 return self.fail('raises', 'op %d %r raised %s: %s (io reference returns %s)' % (
                     i, op, o['exc'], o.get('msg'), show(exp[i][0])), i, op, None, exp[i][0])
             want, want_tell = exp[i]
+            if op[0] == 'x' and o['t'] != want_tell:
+                return self.fail('tell_after', 'tell() after the rejected call %d %r (raised %s) is %r; nothing was stored%s, '
+                                 'io.%s (which skipped the call) is at %d (max_size=%s)' % (
+                                     i, op, o.get('rej'), o['t'], ' but the pieces before the refused one' if x_ref_ops(op, case['k']) else '',
+                                     'StringIO' if text else 'BytesIO', want_tell, case['ms']),
+                                 i, op, o['t'], want_tell)
             if o['r'] != want:
                 tag = ('lines' if base(op) in LINE_OPS else 'read' if base(op) in ('r', 'ra') else
                        'content' if base(op) == 'g' else 'position')
@@ -986,6 +1440,8 @@ class C18(Property):
             if dexp is not None:
                 self.stats['default_StringIO_cases'] = self.stats.get('default_StringIO_cases', 0) + 1
                 for i, op in enumerate(case['ops']):
+                    if dexp[i] is None:
+                        continue
                     if [obs[i]['r'], obs[i]['t']] != dexp[i]:
                         return self.fail('default_stringio', 'op %d %r: returned %s at %r, the default io.StringIO() gives '
                                          '%s at %r (no lone CR in what is read)' % (i, op, show(obs[i]['r']), obs[i]['t'],
@@ -994,6 +1450,8 @@ class C18(Property):
         n = self.data_len(case)
         rolled = n >= case['ms']
         wide = text and any(ord(ch) > 127 for op in case['ops'] if op[0] in ('w', 'wl') for ch in written(op, 'S'))
+        if any(op[0] == 'x' for op in case['ops']):
+            self.stats['cases_with_rejected_call'] = self.stats.get('cases_with_rejected_call', 0) + 1
         self._nt = bool(useful and n and (rolled or wide))
         return None
 
@@ -1028,17 +1486,25 @@ class C18(Property):
 
     def oracle_mfr(self, case, obs):
         exp = mfr_expected(case)
+        if any(mfr_at(case)) and not any('acc' in o or 'exc' in o for o in obs) and len(obs) >= len(case['ops']):
+            alt = mfr_expected(case, from_start=True)
+            if alt != exp and [o['r'] for o in obs[:len(alt)]] == alt:
+                exp = alt       # the whole history read under the other reading of "its files' contents"
+                self.stats['mfr_from_start_reading'] = self.stats.get('mfr_from_start_reading', 0) + 1
         for i, op in enumerate(case['ops']):
             if i >= len(obs):
                 return Failure('mfr_missing', 'no observation for op %d %r' % (i, op))
             o = obs[i]
+            if 'acc' in o:
+                return None
             if 'exc' in o:
                 return Failure('mfr_raises', 'MultiFileReader op %d %r raised %s: %s' % (i, op, o['exc'], o.get('msg')))
             if o['r'] != exp[i]:
-                return Failure('mfr_concat', 'MultiFileReader%r op %d %r returned %s, the concatenation gives %s' % (
-                    tuple(case['files']), i, op, show(o['r']), show(exp[i])))
-        sized = any(op[0] == 'r' and op[1] > 0 for op in case['ops'])
-        reseek = any(op[0] == 's' for op in case['ops'][1:])
+                return Failure('mfr_concat', 'MultiFileReader%r%s op %d %r returned %s, the concatenation gives %s' % (
+                    tuple(case['files']), (' (members handed over at positions %r)' % (mfr_at(case),)) if any(mfr_at(case)) else '',
+                    i, op, show(o['r']), show(exp[i])))
+        sized = any(op[0] in ('r', 'rk') and op[1] > 0 for op in case['ops'])
+        reseek = any(op[0] in M_SEEK_OPS for op in case['ops'][1:])
         self._nt = len(case['files']) >= 2 and (sized or reseek)
         return None
 
@@ -1071,14 +1537,93 @@ class C18(Property):
         refined = [p for ln in want[1] for p in txt(ln).splitlines(True)]
         return [txt(x) for x in got[1]] == refined
 
+    # known finding of round 5 (repaired by `fix:` 0b8bf8c on r5-c18-work; `known` until that commit is in the tree
+    # under test): SpooledStringIO.seek(x) with x not an integer ('a', None) raises TypeError AFTER it has rewound the raw
+    # stream: tell() keeps the old position, the next read starts at 0 (and the next write overwrites from 0).  Matched
+    # only when (1) an ['x', 'sb', ..] call on a SpooledStringIO precedes the failing op, (2) that call DID leave the raw
+    # stream somewhere else than tell() says (looked at directly: the raw offset was moved to 0 by the call), and (3) the
+    # same history WITHOUT the rejected seeks passes the oracle on this implementation - the failure is theirs alone.
+    def finding_seek_nonint_not_atomic(self, case, failure):
+        d = getattr(failure, 'detail', None)
+        if case.get('k') != 'S' or not d or getattr(self, '_in_finding', False):
+            return False
+        i = d['i']
+        if not any(op[0] == 'x' and op[1] == 'sb' for op in case['ops'][:i]):
+            return False
+        if not self.seek_nonint_rewinds(case, i):
+            return False
+        without = dict(case, ops=[op for op in case['ops'] if not (op[0] == 'x' and op[1] == 'sb')])
+        self._in_finding = True
+        try:
+            saved = dict(self.stats)
+            ok = self.oracle(without, self.impl(without)) is None
+            self.stats.clear()
+            self.stats.update(saved)
+        finally:
+            self._in_finding = False
+        self._nt = False
+        return ok
+
+    def seek_nonint_rewinds(self, case, upto):
+        """replay the history up to op `upto`; True if some rejected seek('a') / seek(None) before it left the raw stream
+        at offset 0 although it stood elsewhere before the call (the defect itself, observed on the object)"""
+        import boltons.ioutils as iu
+        saved = iu.READ_CHUNK_SIZE
+        f = None
+        try:
+            with time_limit(self.case_limit()):
+                if case.get('chunk') is not None:
+                    iu.READ_CHUNK_SIZE = case['chunk']
+                f = iu.SpooledStringIO(max_size=case['ms'])
+                for op in case['ops'][:upto]:
+                    if op[0] == 'o' or op[0] == 'q':
+                        continue
+                    if op[0] == 'x':
+                        before = f.buffer.tell()
+                        try:
+                            x_call(f, op, 'S')
+                        except Exception:
+                            pass
+                        if op[1] == 'sb' and before != 0 and f.buffer.tell() == 0:
+                            return True
+                        continue
+                    apply_op(f, op, 'S', False)
+        except Exception:
+            return False
+        finally:
+            iu.READ_CHUNK_SIZE = saved
+            try:
+                if f is not None:
+                    f.close()
+            except Exception:
+                pass
+        return False
+
     # ------------------------------------------------------------------ shrinking
     def shrink(self, case):
         ops = case['ops']
         if case['k'] == 'M':
             for i in range(len(ops)):
                 yield dict(case, ops=ops[:i] + ops[i + 1:])
+            at = case.get('at')
             for i in range(len(case['files'])):
-                yield dict(case, files=case['files'][:i] + case['files'][i + 1:])
+                c = dict(case, files=case['files'][:i] + case['files'][i + 1:])
+                if at:
+                    c['at'] = at[:i] + at[i + 1:]
+                yield c
+            if at:
+                for i, a in enumerate(at):
+                    if a:
+                        yield dict(case, at=at[:i] + [0] + at[i + 1:])
+            if case.get('mk') not in ('io', 'written'):
+                yield dict(case, mk='written' if at and any(at) else 'io')
+            for i, op in enumerate(ops):
+                if op[0] in ('sw', 'skk'):
+                    yield dict(case, ops=ops[:i] + [['s']] + ops[i + 1:])
+                elif op[0] == 'rn':
+                    yield dict(case, ops=ops[:i] + [['ra']] + ops[i + 1:])
+                elif op[0] == 'rk':
+                    yield dict(case, ops=ops[:i] + [['r', op[1]]] + ops[i + 1:])
             for i, p in enumerate(case['files']):
                 step = 1 if case['text'] else 2
                 for j in range(0, len(p), step):
@@ -1090,8 +1635,8 @@ class C18(Property):
                             continue
                     yield dict(case, files=case['files'][:i] + [q] + case['files'][i + 1:])
             for i, op in enumerate(ops):
-                if op[0] == 'r' and op[1] > 1:
-                    yield dict(case, ops=ops[:i] + [['r', op[1] - 1]] + ops[i + 1:])
+                if op[0] in ('r', 'rk') and op[1] > 1:
+                    yield dict(case, ops=ops[:i] + [[op[0], op[1] - 1]] + ops[i + 1:])
             return
 
         def ok(c):
@@ -1129,12 +1674,18 @@ class C18(Property):
                 c = dict(case, ops=ops[:i] + [[ALIAS[op[0]]]] + ops[i + 1:])
                 if ok(c):
                     yield c
+            elif op[0] in ARG_ALIAS and case['k'] != 'F':
+                c = dict(case, ops=ops[:i] + [[ARG_ALIAS[op[0]], op[1]]] + ops[i + 1:])
+                if ok(c):
+                    yield c
             elif op[0] in ARG_OPS and op[1] > 0:
                 for v in {0, op[1] // 2, op[1] - 1}:
                     if v < op[1]:
                         c = dict(case, ops=ops[:i] + [[op[0], v]] + ops[i + 1:])
                         if ok(c):
                             yield c
+        if case.get('ctor'):
+            yield dict(case, ctor=0)
         if case['k'] == 'S' and case.get('chunk') is None:
             yield dict(case, chunk=3)
 
